@@ -71,7 +71,7 @@ def circshift(ctx, R="R-C20-circshift-copy"):
     prog = ctx.prog
     f = prog.func("util.circshift_fourier")
     ctx.need(f.params[:5] == ["filt", "shift", "start_idx", "dft_size", "copy"], R, "signature of circshift_fourier changed")
-    eff = Effects(prog, flag="copy")
+    eff = Effects(prog, flag="copy", disjunctive=True)
     ws, _ = eff.writes_to(f, "filt")
     ctx.check(all(True not in w.flags for w in ws), R, f, ws[0].stmt if ws else f.node,
               "the input spectrum is multiplied in place only when copy is False",
@@ -437,7 +437,8 @@ def gamma(ctx, R="R-C20-gamma"):
     ctx.check(r["verdict"] == "equal", R, f, f.node,
               "ln c = order * ln alpha - ln (order-1)!", "ln c is %s" % (S.show(lnc_n)[:120] if lnc_n is not None else None))
     sup = [n for n in f.body_nodes() if isinstance(n, ast.Assign) and astq.is_name(n.targets[0], "ret") and isinstance(n.value, ast.Call)]
-    ok = len(sup) == 1 and astq.in_texts(sup[0].value, ("np.arange(width-1,-1,-1,dtype=float)",))
+    ok = len(sup) == 1 and astq.in_texts(sup[0].value, ("np.arange(width-1,-1,-1,dtype=float)", "np.arange(width-1,-1,-1,dtype=np.float64)", "np.arange(width-1,-1,-1,dtype=numpy.float64)",
+                                                        "np.arange(width-1,-1,-1,dtype='float64')"))
     ctx.check(ok, R, f, sup[0] if sup else MISSING(f.node), "the support is time-reversed: arange(width-1, -1, -1)",
               "support is %s" % (astq.text(sup[0].value) if sup else None))
     st = [n for n in f.body_nodes() if isinstance(n, ast.Assign) and isinstance(n.targets[0], ast.Subscript) and astq.is_name(n.targets[0].value, "ret")]
